@@ -60,6 +60,7 @@ fn main() {
                     "threads" => gens::threads(&spec),
                     "history" => gens::history(&spec),
                     "churn" => gens::churn(&spec),
+                    "fresh_race" => gens::fresh_race(&spec),
                     "iter_api" => gens::iter_api(spec["bits"].as_u64().unwrap() as usize, spec["cap"].as_u64().unwrap() as usize),
                     _ => gens::describe(
                         spec["bits"].as_u64().unwrap() as usize,
